@@ -1,4 +1,4 @@
-use garnish_lang_traits::{RuntimeError, GarnishDataType, GarnishData, GarnishNumber};
+use garnish_lang_traits::{RuntimeError, GarnishDataType, GarnishData, GarnishNumber, Instruction};
 use crate::runtime::utilities::{next_two_raw_ref, push_unit};
 use crate::runtime::error::OrNumberError;
 
@@ -47,8 +47,17 @@ fn make_range_internal<Data: GarnishData>(
             let addr = this.add_range(left_addr, right_addr)?;
             this.push_register(addr)?;
         }
-        _ => {
-            push_unit(this)?;
+        (l, r) => {
+            // no range can be made from these, same as every other operation let the data object decide first
+            let instruction = match (start_exclusive, end_exclusive) {
+                (false, false) => Instruction::MakeRange,
+                (true, false) => Instruction::MakeStartExclusiveRange,
+                (false, true) => Instruction::MakeEndExclusiveRange,
+                (true, true) => Instruction::MakeExclusiveRange,
+            };
+            if !this.defer_op(instruction, (l, left_addr), (r, right_addr))? {
+                push_unit(this)?;
+            }
         }
     }
 
